@@ -9,7 +9,7 @@ from ..pipeline_oracle import classify_case, examine_pipeline, exc_name, reraise
 from ..runner import Outcome
 from . import Check
 
-EXPECT = {"names": "ValueError", "types": "TypeError", "grouped_left": "ValueError", "grouped_right": "ValueError",
+EXPECT = {"names": "ValueError", "names_extra": "ValueError", "types": "TypeError", "grouped_left": "ValueError", "grouped_right": "ValueError",
           "backend": "TypeError"}
 
 
@@ -70,6 +70,9 @@ def union_case(draw, tier):
     if which == "names":
         n = draw(st.sampled_from([x for x, _ in target]))
         rvar = g.emit({"out": g.new_var(), "verb": "rename", "in": rvar, "map": [[n, "zz_other"]]})
+    elif which == "names_extra":
+        # the right table has every column of the left one and one more
+        rvar = g.emit({"out": g.new_var(), "verb": "mutate", "in": rvar, "items": [["zz_extra", ["lit", 1]]]})
     elif which == "types":
         cands = [(n, f) for n, f in target]
         n, f = draw(st.sampled_from(cands))
@@ -93,7 +96,7 @@ class C07(Check):
             "names in permuted order (hidden columns on either side, duplicates within/across sides, nullable columns, "
             "empty sides, chained unions, same-origin operands, verbs before and after), compared with the reference "
             "(left names/order; multiset sum or set with nulls equal) on Polars and SQLite; 'leak' cases probe columns "
-            "hidden before the union (must raise ColumnNotFoundError); refusal cases (different names, no common type, "
+            "hidden before the union (must raise ColumnNotFoundError); refusal cases (different names, an extra column on the right, no common type, "
             "grouped operand, different backends) must raise the documented exception type. non-trivial = the column "
             "order differs between the operands or an operand has hidden columns, and the union is non-empty; or a "
             "leak/refusal case")
